@@ -100,7 +100,42 @@ def part_pipeline(ctx):
         ctx.sample({"part": "pipeline", "run": owners[0][1]})
 
 
-PARTS = [("step", part_step), ("pipeline", part_pipeline)]
+def part_thresh(ctx):
+    """n_iter = 0, epsilon > 0: exact oracle (column-normalise, threshold) from Cooc.tla"""
+    from .. import cooc_cfg, cooc_gen
+    rng = random.Random(ctx.seed + 5)
+    eps = [[1, 10], [1, 4], [1, 3], [1, 2], [1, 1]]
+    cfgs = [cooc_cfg.cfg(k, False, [cooc_cfg.win(o, r)]) for k in ("flat", "harmonic", "geometric") for o in ("after", "directional") for r in (1, 2)]
+    cfgs += [cooc_cfg.cfg("flat", False, [cooc_cfg.win("before", 2, offset=1, mix=2), cooc_cfg.win("after", 1)])]
+    for fam, timed in (("token", False), ("timed", True)):
+        use = [c for c in cfgs if not (timed and c["kernel"] == "harmonic")]
+        items = cooc_gen.emit(ctx, 3 if not timed else 2, ctx.pick(4, 5) if not timed else ctx.pick(3, 4), ctx.pick(1, 2), use,
+                              "Cooc with epsilon thresholding (%s)" % fam,
+                              extra_constants=dict(Eps=eps, TIMED=timed, Gaps=tlc.TLAExpr("{0,1,2}" if timed else "{1}")))
+        if len(items) > ctx.pick(700, 40000):
+            ctx.exhaustive = False
+            items = rng.sample(items, ctx.pick(700, 40000))
+        for it in items:
+            it["eps"] = eps
+            it["family"] = fam
+        ctx.log("C11 threshold instances (%s):" % fam, len(items))
+        res = pool_map("cooc", "run_thresh", items, min_chunk=150)
+        for it, rr in zip(items, res):
+            ctx.evaluations += 1
+            ctx.traces += 1
+            ctx.count("thresh_" + fam)
+            if any(len(t) < len(it["cells"]) for t in it["thresh"]):
+                ctx.nontriv({"c": it["corpus"], "ci": it["ci"], "f": fam})
+            ident = {"part": "thresh", "family": fam, "corpus": it["corpus"], "cfg": cooc_cfg.describe(it["cfg"])}
+            if rr is None or "crash" in rr or "exc" in rr:
+                ctx.violation(dict(ident, kind="crash-or-exception", exc=(rr or {}).get("exc")), {"item": it, "result": rr})
+            elif not rr["ok"]:
+                ctx.violation(dict(ident, kind="threshold-mismatch", eps=[f["eps"] for f in rr["fails"]]), {"item": it, "result": rr})
+        ctx.sample({"part": "thresh", "corpus": items[0]["corpus"], "cfg": cooc_cfg.describe(items[0]["cfg"]), "eps": eps[1],
+                    "expected": items[0]["thresh"][1][:6]})
+
+
+PARTS = [("step", part_step), ("thresh", part_thresh), ("pipeline", part_pipeline)]
 
 
 def run(ctx):
